@@ -143,14 +143,14 @@ theorem firstLineR_sub (sr : List Rune) : ∀ r ∈ firstLineR sr, r ∈ sr := b
 lie between `pre` and the cursor, `position()` is (number of lines of `pre`, 1 + UTF-16 length of `pre`'s last line) -/
 theorem position_contig (l : L) (pre sr : List Rune)
     (hok : ∀ r ∈ sr, RuneOK r) (henc : ∀ r ∈ sr, EncOK r)
-    (hs : l.s = encAll sr) (hpos : l.pos = posOf (pre ++ sr)) :
-    l.position = some (((posOf pre).length : Int), 1 + (((posOf pre).headD 0 : Nat) : Int)) := by
-  obtain ⟨p, ps, hpp⟩ : ∃ p ps, posOf pre = p :: ps := by
-    cases hq' : posOf pre with
-    | nil => exact absurd hq' (posOf_ne_nil pre)
+    (hs : l.s = encAll sr) (hpos : l.pos = linesOf (pre ++ sr)) :
+    l.position = some (((linesOf pre).length : Int), 1 + (((linesOf pre).headD 0 : Nat) : Int)) := by
+  obtain ⟨p, ps, hpp⟩ : ∃ p ps, linesOf pre = p :: ps := by
+    cases hq' : linesOf pre with
+    | nil => exact absurd hq' (linesOf_ne_nil pre)
     | cons p ps => exact ⟨p, ps, rfl⟩
   have hfold : l.pos = sr.foldl bump (p :: ps) := by
-    rw [hpos, posOf, List.foldl_append, ← posOf, hpp]
+    rw [hpos, linesOf, List.foldl_append, ← linesOf, hpp]
   obtain ⟨front, hf, hfl⟩ := fold_shape sr p ps
   have hnl : countNl l.s = front.length := by rw [hs, countNl_encAll sr hok, hfl]
   have hfl1 : utf16Len (firstLine (encAll sr)) = u16sum (firstLineR sr) := by
